@@ -98,6 +98,10 @@ func (share *Share) Verify(ec elliptic.Curve, threshold int, vs Vs) bool {
 	}
 	var err error
 	modQ := common.ModInt(ec.Params().N)
+	if share.ID == nil || share.Share == nil ||
+		modQ.Add(share.ID, zero).Sign() == 0 || modQ.Add(share.Share, zero).Sign() == 0 {
+		return false
+	}
 	v, t := vs[0], one // YRO : we need to have our accumulator outside of the loop
 	for j := 1; j <= threshold; j++ {
 		// t = k_i^j
@@ -114,7 +118,7 @@ func (share *Share) Verify(ec elliptic.Curve, threshold int, vs Vs) bool {
 }
 
 func (shares Shares) ReConstruct(ec elliptic.Curve) (secret *big.Int, err error) {
-	if shares != nil && shares[0].Threshold > len(shares) {
+	if len(shares) == 0 || shares[0].Threshold > len(shares) {
 		return nil, ErrNumSharesBelowThreshold
 	}
 	modN := common.ModInt(ec.Params().N)
@@ -134,6 +138,9 @@ func (shares Shares) ReConstruct(ec elliptic.Curve) (secret *big.Int, err error)
 			}
 			sub := modN.Sub(xs[j], share.ID)
 			subInv := modN.ModInverse(sub)
+			if subInv == nil {
+				return nil, errors.New("duplicate share ids")
+			}
 			div := modN.Mul(xs[j], subInv)
 			times = modN.Mul(times, div)
 		}
